@@ -52,7 +52,7 @@ class C06(OptEngineBase):
     PROBES = [
         "fixed_isolated", "all_fixed", "none_fixed", "fixed_landmark", "unfix_between_calls",
         "first_vertex_not_min_id", "nan_outcome", "diverged_outcome", "singular_natural", "solver_raise_fired",
-        "i3_checked", "i3_skipped_illcond", "stdout_fail_fired", "multi_component", "singular_raised_as_error", "i3_trajectory_step", "aliased_pose_objects", "fixed_satellite_pose", "fixed_vertex_moved_by_user_between_calls", "graph_pickled_or_deepcopied_between_calls", "multi_iteration_end_state_checked", "integer_fixed_flags", "solver_raised_naturally",
+        "i3_checked", "i3_skipped_illcond", "stdout_fail_fired", "multi_component", "singular_raised_as_error", "i3_trajectory_step", "aliased_pose_objects", "fixed_satellite_pose", "fixed_vertex_moved_by_user_between_calls", "graph_pickled_or_deepcopied_between_calls", "multi_iteration_end_state_checked", "integer_fixed_flags", "solver_raised_naturally", "graph_rebuilt_over_same_objects",
     ]
 
     # ------------------------------------------------------------------ generate
@@ -103,6 +103,12 @@ class C06(OptEngineBase):
                 # the user re-positions a vertex between calls (fixed or free): v.pose = v.pose [+] delta
                 target = rng.choice(sorted(fixed)) if fixed and rng.random() < 0.6 else rng.choice(ids)  # often a fixed one
                 ops.append({"op": "move_vertex", "v": target, "delta": [rng.gauss(0, 0.5) for _ in range(6)], "inplace": rng.random() < 0.5})
+            elif r < 0.115:
+                # a new Graph is built over the same vertex and edge objects, in another vertex order (sliding window,
+                # re-indexing); the old one is dropped
+                perm = list(range(len(ids)))
+                rng.shuffle(perm)
+                ops.append({"op": "regraph", "perm": perm})
             elif r < 0.13:
                 # the graph goes through pickle / deepcopy between calls (checkpoint, multiprocessing)
                 ops.append({"op": "recreate", "how": rng.choice(["pickle", "deepcopy"])})
@@ -181,6 +187,19 @@ class C06(OptEngineBase):
                         model.discard(v.id)
                     sig_ops.append("set_fixed")
                     log.note("set_fixed", [v.id, bool(op["value"])])
+                elif kind == "regraph":
+                    from graphslam.graph import Graph as _Graph
+
+                    perm = [k for k in op["perm"] if k < len(verts)]
+                    if sorted(perm) == list(range(len(verts))):
+                        g = _Graph(g._edges, [verts[k] for k in perm])
+                        verts = g._vertices
+                        by_id = {v.id: v for v in verts}
+                        types = [graphs.type_name(v.pose) for v in verts]
+                        if not dry:
+                            res.probe("graph_rebuilt_over_same_objects")
+                    sig_ops.append("regraph")
+                    log.note("regraph", len(perm))
                 elif kind == "recreate":
                     import pickle
 
